@@ -38,6 +38,13 @@ Definition ckpt_registry : registry :=
     ("_eino_pregel_channel", TStruct S_PREGEL);
     ("_eino_dependency_state", TNamed N_DEPSTATE BUint8) ].
 
+(* the registry of a process that uses compose: serialization.init, compose's init
+   (dag.go), then the user's registrations; and the struct environment.  The
+   correspondence check evaluates every case with these (see [mk] in the generated
+   cases files). *)
+Definition ckpt_reg (ureg : registry) : registry := (builtin_registry ++ ckpt_registry ++ ureg)%list.
+Definition ckpt_senv (uenv : senv) : senv := (ckpt_env ++ uenv)%list.
+
 (* a small checkpoint: one DAG channel, one Pregel channel, a pending input, a state
    held in [any], a nested sub-graph checkpoint *)
 Definition vstr (s : string) : val := VBase BString (LStr s).
